@@ -104,6 +104,50 @@ def _mk_regex(n, first=None):
     return G_regex
 
 
+def G_regex_multiclass(c1: str, p1: str, e1: bool, c2: str, p2: str, e2: bool, q: int, anchors: bool) -> int:
+    """
+    pre: len(c1) == 1 and len(p1) == 1 and len(c2) == 1 and len(p2) == 1 and q == 2 and anchors and not e1 and e2 and c1 == "A" and c2 == "0"
+    post: _ != 0
+    """
+    # patterns made of two character classes, each holding a plain character and optionally an escaped punctuation
+    # character (always valid for Python's re): the compiled fragment must be well-formed GBNF
+    from octave_mcp.core import constraints as c
+    from octave_mcp.core.gbnf_compiler import GBNFCompiler
+    from vf import gbnf
+
+    for ch in (c1, c2):
+        o = ord(ch)
+        if ch in "]\\[^-" or o < 32 or o > 126:
+            return SKIP
+    for ch in (p1, p2):
+        o = ord(ch)
+        if not (33 <= o <= 47 or 58 <= o <= 64 or 91 <= o <= 96 or 123 <= o <= 126):
+            return SKIP  # escaped ASCII punctuation only (an escaped letter may be an invalid or special regex escape)
+    p = "[" + c1 + ("\\" + p1 if e1 else "") + "][" + c2 + ("\\" + p2 if e2 else "") + "]" + ["", "+", "*", "?"][q]
+    if anchors:
+        p = "^" + p + "$"
+    rc = object.__new__(c.RegexConstraint)  # skip re.compile (C code); the compiler reads only .pattern
+    rc.pattern = p
+    rc._compiled = None
+    frag = GBNFCompiler()._compile_regex(rc)
+    return VIOL if gbnf.fragment_problems(frag) else HELD
+
+
+def G_regex_multiclass_replay(c1: str, p1: str, e1: bool, c2: str, p2: str, e2: bool, q: int, anchors: bool) -> int:
+    from octave_mcp.core import constraints as c
+    from octave_mcp.core.gbnf_compiler import GBNFCompiler
+    from vf import gbnf
+
+    p = "[" + c1 + ("\\" + p1 if e1 else "") + "][" + c2 + ("\\" + p2 if e2 else "") + "]" + ["", "+", "*", "?"][q]
+    if anchors:
+        p = "^" + p + "$"
+    try:
+        rc = c.RegexConstraint(p)
+    except ValueError:
+        return HELD
+    return VIOL if gbnf.fragment_problems(GBNFCompiler()._compile_regex(rc)) else HELD
+
+
 def _mk_sanitize(n):
     def G_sanitize(name: str) -> int:
         """
@@ -281,6 +325,7 @@ def obligations(tier):
         xh_ob(PROP, "G.assembly[name-pairs]", G_asm_pairs, timeout=1200, bound=f"{pool}: all ordered pairs of {len(NAMES)} names x 3 chains x envelope", functions=af),
         xh_ob(PROP, "G.assembly[name-triples]", G_asm_triples, timeout=1800, bound=f"{pool}: triples from the collision-prone names, schema name 'ws', envelope", functions=af),
     ]
+    obs.append(xh_ob(PROP, "G.regex-two-classes-with-escapes", G_regex_multiclass, replay=G_regex_multiclass_replay, timeout=1500, bound="patterns ^[A][0\\p]*$ for every escaped ASCII punctuation character p (symbolic)", functions=[cf + "_compile_regex"], stubs=["RegexConstraint built without re.compile (C code); replay uses the real constructor"]))
     n = len(REGEX_ALPHABET)
     ln = 4 if th else 3
     for lo in range(0, n, 5):
